@@ -840,7 +840,15 @@ func (x *Exec) enterLoop(li *loopInfo) {
 	for _, c := range cells {
 		isBacking := strings.HasSuffix(c.Name, "_backing")
 		if li.mod[c] || (isBacking && (li.mod[nil] || x.sliceStoredIn(li, c))) {
-			x.cur.mem[c] = x.havocLike(x.cur.mem[c], "h_"+c.Name)
+			before := x.cur.mem[c]
+			x.cur.mem[c] = x.havocLike(before, "h_"+c.Name)
+			if b, ok := before.(*SliceV); ok && x.appendOnly(li, c) {
+				// every assignment to this slice variable in the loop is v = append(v, ...), which keeps
+				// the offset of the slice within its backing store: the offset is not havocked
+				h := *(x.cur.mem[c].(*SliceV))
+				h.Off = b.Off
+				x.cur.mem[c] = &h
+			}
 		}
 	}
 	if li.spec != nil {
@@ -887,6 +895,34 @@ func (x *Exec) sliceStoredIn(li *loopInfo, c *Cell) bool {
 		}
 	}
 	return false
+}
+
+// appendOnly reports whether every store to the variable cell c inside the loop has the form
+// c = append(c, ...).
+func (x *Exec) appendOnly(li *loopInfo, c *Cell) bool {
+	n := 0
+	for blk := range li.body {
+		for _, ins := range blk.Instrs {
+			st, ok := ins.(*ssa.Store)
+			if !ok || x.rootCell(st.Addr) != c {
+				continue
+			}
+			call, ok := st.Val.(*ssa.Call)
+			if !ok {
+				return false
+			}
+			bi, ok := call.Call.Value.(*ssa.Builtin)
+			if !ok || bi.Name() != "append" {
+				return false
+			}
+			ld, ok := call.Call.Args[0].(*ssa.UnOp)
+			if !ok || ld.Op != token.MUL || ld.X != st.Addr {
+				return false
+			}
+			n++
+		}
+	}
+	return n > 0
 }
 
 func (x *Exec) havocLike(v Val, hint string) Val {
